@@ -96,6 +96,22 @@ def _text_block_is_bytewise(ctx, rep):
 
 
 def check(ctx, rep):
+    # Tandy SCREEN 6: an even byte and the odd byte after it hold the low and the high attribute bit of the SAME eight pixels, so
+    # byte columns 0,1 -> x 0; 2,3 -> x 8; ...  (evaluated from the expression itself for the first byte columns)
+    t6 = ctx.fn('pcbasic/basic/display/framebuffer.py:Tandy6MemoryMapper._get_coords')
+    xs = [a for a in own_nodes(t6) if isinstance(a, ast.Assign) and norm(a.targets[0]) == 'x']
+    vals = None
+    if len(xs) == 1:
+        try:
+            code = compile(ast.Expression(body=xs[0].value), '<x>', 'eval')
+            names = set(n.id for n in ast.walk(xs[0].value) if isinstance(n, ast.Name))
+            attrs = [n for n in ast.walk(xs[0].value) if isinstance(n, (ast.Attribute, ast.Call))]
+            if names <= {'col'} and not attrs:
+                vals = [eval(code, {'__builtins__': {}}, {'col': c}) for c in range(6)]
+        except Exception:
+            vals = None
+    rep.ob('tandy6.byte-pair-shares-pixels', 'Tandy6MemoryMapper._get_coords: byte columns 2k and 2k+1 map to x = 8k', vals == [0, 0, 8, 8, 16, 16],
+           'x(col) for col 0..5 = %r (%s): an odd byte is mapped to other pixels than the even byte it belongs to' % (vals, norm(xs[0].value) if xs else None), ctx.where(t6))
     _page_step_resets_bank_state(ctx, rep)
     _text_block_is_bytewise(ctx, rep)
     for cname, ipb in (('CGAMemoryMapper', 'self._ppb'), ('EGAMemoryMapper', '8'), ('Tandy6MemoryMapper', None)):
@@ -228,6 +244,8 @@ def variants(ctx):
         return lambda tree: f(mu.find_def(tree, f_name))
 
     return [
+        mu.Variant('tandy6-odd-byte-maps-four-pixels-right', 'break', 'pcbasic/basic/display/framebuffer.py',
+                   lambda tree: mu.replace_expr(mu.find_def(tree, 'Tandy6MemoryMapper._get_coords'), mu.text_is('col // 2 * 8'), 'col * 8 // 2'), expect='tandy6.byte-pair-shares-pixels'),
         mu.Variant('text-mapper-lacks-plane-registers', 'break', 'pcbasic/basic/display/framebuffer.py',
                    lambda tree: _drop_method(tree, 'TextMemoryMapper', 'set_plane'), expect='access.mapper-interface-complete'),
         mu.Variant('cga-decoder-assumes-two-way-interleave', 'break', 'pcbasic/basic/display/framebuffer.py',
